@@ -1,4 +1,6 @@
 import Driver.Proto
+import Ezc3dVerif.Model.Read
+import Ezc3dVerif.Model.Write
 /-
   Line-protocol driver: runs the model on an op script and prints the same lines as the C++
   harness (/verif/harness/harness.cpp).
@@ -102,6 +104,15 @@ def stepLine (d : DState) (n : Nat) (line : String) : IO (DState × List String)
   | ["dumpmode", m] =>
     return ({ d with mode := if m == "full" then .full else if m == "shape" then .shape else .none }, [hd])
   | ["new"] => return ({ d with cur := some C3D.init }, hd :: "R ok" :: dumpLines d.mode C3D.init)
+  | ["load", path] =>
+    let bytes? ← (do let b ← IO.FS.readBinFile path; pure (some b)) <|> pure none
+    match bytes? with
+    | none => return ({ d with cur := none }, [hd, "R throw ios_failure"])
+    | some b =>
+      match C3D.load fops b.toList with
+      | .ok s => return ({ d with cur := some s }, hd :: "R ok" :: dumpLines d.mode s)
+      | .throw e => return ({ d with cur := none }, [hd, s!"R throw {e}"])
+      | .ub k => return ({ d with cur := none }, [hd, s!"R ub {k.toString}"])
   | ["mkframe", v, pts, subs] =>
     let f : Frame := { pts := (parsePts pts).getD [], subs := (parseSubs subs).getD [] }
     return (d.setVar v f, [hd])
@@ -152,6 +163,13 @@ def stepLine (d : DState) (n : Nat) (line : String) : IO (DState × List String)
         | .ub k => .ub k
       let (d', ls) := applyOutcome d o
       return (d', hd :: ls)
+    | ["save", path] =>
+      match s.write with
+      | .ok b =>
+        IO.FS.writeBinFile (path ++ ".model") (ByteArray.mk b.toArray)
+        return (d, hd :: "R ok" :: dumpLines d.mode s)
+      | .throw e => return (d, hd :: s!"R throw {e}" :: dumpLines d.mode s)
+      | .ub k => return (d, [hd, s!"R ub {k.toString}"])
     | ["print"] => return (d, [hd, "R ok"])
     | ["dump"] => return (d, hd :: dumpLines d.mode s)
     | ["pset", ty, dims, vals] =>
@@ -168,7 +186,7 @@ partial def loop (h : IO.FS.Stream) (out : IO.FS.Stream) (d : DState) (n : Nat) 
   if line.isEmpty then
     out.putStrLn "END"
     return ()
-  let l := (line.dropEndWhile (fun c => c == '\n' || c == '\r'))
+  let l := (line.dropEndWhile (fun c => c == '\n' || c == '\r')).toString
   if l.isEmpty || l.front == '#' then loop h out d (n + 1)
   else
     let (d', ls) ← stepLine d (n + 1) l
